@@ -149,6 +149,8 @@ def periodicGroup (D : DynData) (dp : Array Nat) (t point : Felt) (uses ratio : 
     | some vs => .ok vs
     | none => .err "CompositionPolyEvalError"
 
+/- `KECCAK_PERMUTATIONS_PER_INSTANCE` is declared `= DILUTED_N_BITS` in the Rust (not a literal, so the constant extractor does not list
+   it): the model falls back to `DILUTED_N_BITS` (found by the correspondence check on instances with the keccak builtin on). -/
 def keccakFns : List String := ["eval_keccak_round_key0", "eval_keccak_round_key1", "eval_keccak_round_key3", "eval_keccak_round_key7",
   "eval_keccak_round_key15", "eval_keccak_round_key31", "eval_keccak_round_key63"]
 def poseidonFns : List String := ["eval_poseidon_poseidon_full_round_key0", "eval_poseidon_poseidon_full_round_key1",
@@ -255,7 +257,7 @@ def evalComposition (D : DynData) (interaction : List Felt) (pi : PublicInput) (
         | .panic s => .panic s
         | .ok ecdsa =>
         match periodicGroup D dp traceDomainSize point "uses_keccak_builtin" "keccak_row_ratio"
-                (D.base.constD "KECCAK_PERMUTATIONS_PER_INSTANCE") 2048 keccakFns with
+                ((D.base.const? "KECCAK_PERMUTATIONS_PER_INSTANCE").getD (D.base.constD "DILUTED_N_BITS")) 2048 keccakFns with
         | .err e => .err e
         | .panic s => .panic s
         | .ok kec =>
